@@ -695,10 +695,13 @@ def _parse_source_for_lambda(
     else:
         # Grab all the lambdas on a single line
         lambdas_on_a_line = defaultdict(list)
+        lambda_source_line = {}
         saw_new_line = False
         while not saw_new_line:
             lda, saw_new_line = _get_lambda_in_stream(t_stream, start_token)
             lambdas_on_a_line[func_name.string if func_name is not None else None].append(lda)
+            # Line in the file of the `lambda` keyword (the tokenizer started at `lambda_line`)
+            lambda_source_line[id(lda)] = lambda_line + start_token.start[0]
 
             if saw_new_line:
                 break
@@ -736,6 +739,18 @@ def _parse_source_for_lambda(
             raise ValueError(
                 f"Internal Error - Found no lambda in source with the arguments {caller_arg_list}"
             )
+
+        if len(good_lambdas) > 1:
+            # Same caller and same argument names: lambdas written on different lines can still
+            # be told apart by the line the function object itself says it starts on.
+            code = getattr(ast_source, "__code__", None)
+            on_line = [
+                lda
+                for lda in good_lambdas
+                if code is not None and lambda_source_line.get(id(lda)) == code.co_firstlineno
+            ]
+            if len(on_line) == 1:
+                good_lambdas = on_line
 
         if len(good_lambdas) > 1:
             raise ValueError(
